@@ -223,14 +223,15 @@ func C14(c *Ctx) {
 	} else {
 		okURL := false
 		for _, call := range CallsTo(start, "(*golang.org/x/oauth2.Config).AuthCodeURL") {
-			if Arg(call, 1) == putState.Val {
+			if Arg(call, 1) == putState.Val || Resolve(call.(ssa.Instruction), Arg(call, 1)) == Resolve(putState.Call.(ssa.Instruction), putState.Val) {
 				okURL = true
 			}
 		}
 		r.Check(okURL, "C14.start", sn, "AuthCodeURL(state)", posf(c, putState.Call), "the value stored is the value sent to the provider", "the state sent to the provider is not the value stored in the session")
 		// fresh randomness: encoded buffer filled by io.ReadFull(crypto/rand.Reader, buf)
 		fresh := false
-		if enc, _ := CallOf(putState.Val); enc != nil && Callee(enc) == fnB64Encode {
+		stVal := Resolve(putState.Call.(ssa.Instruction), putState.Val)
+		if enc, _ := CallOf(stVal); enc != nil && Callee(enc) == fnB64Encode {
 			buf := stripConv(Arg(enc, 1))
 			for _, call := range CallsTo(start, "io.ReadFull") {
 				if stripConv(Arg(call, 1)) == buf {
